@@ -241,11 +241,11 @@ Section Nodes.
       /\ to_obj env (S f) (TEnum tbl) (VRaw (CText n)) = Ok (CText n).
     Proof using Type Hn Hi Hr.
       intros Hin. split; [|split; [|split]].
-      - cbn [from_obj is_none]. assert (E : existsb (fun e => py_eqb (CText (fst e)) (CText n)) tbl = true).
+      - cbn [from_obj from_obj_body is_none]. assert (E : existsb (fun e => py_eqb (CText (fst e)) (CText n)) tbl = true).
         { apply existsb_exists. exists (n, i). split; [assumption|]. cbn [fst]. unfold py_eqb. cbn. apply list_eqb_refl. }
         rewrite E. reflexivity.
-      - cbn [to_cbor]. destruct (by_name tbl Hn n i Hin) as (k & ->). reflexivity.
-      - cbn [from_cbor]. destruct tbl as [|e0 tbl'] eqn:Et; [destruct Hin|]. rewrite <- Et in *.
+      - cbn [to_cbor to_cbor_body]. destruct (by_name tbl Hn n i Hin) as (k & ->). reflexivity.
+      - cbn [from_cbor from_cbor_body]. destruct tbl as [|e0 tbl'] eqn:Et; [destruct Hin|]. rewrite <- Et in *.
         rewrite dec_ser_int by (eapply Hr; eassumption). cbn [bind].
         destruct (by_id tbl Hi n i Hin) as (k & ->). reflexivity.
       - reflexivity.
@@ -254,7 +254,7 @@ Section Nodes.
     (* a string that is not a name of this key space is rejected *)
     Theorem enum_rejects_foreign n f : ~ In n (map fst tbl) -> from_obj' (S f) (TEnum tbl) (CText n) = Raise ValueError.
     Proof using Type.
-      intros Hnot. cbn [from_obj is_none].
+      intros Hnot. cbn [from_obj from_obj_body is_none].
       assert (E : existsb (fun e => py_eqb (CText (fst e)) (CText n)) tbl = false).
       { destruct (existsb _ tbl) eqn:E; [|reflexivity]. apply existsb_exists in E. destruct E as ([m j] & Hin & He).
         cbn [fst] in He. unfold py_eqb in He. cbn in He. apply list_eqb_eq in He. subst. exfalso. apply Hnot.
@@ -266,7 +266,7 @@ Section Nodes.
     Theorem enum_rejects_unknown_id i f : - 2 ^ 64 <= i < 2 ^ 64 -> ~ In i (map snd tbl) ->
       from_cbor env json_dumps (S f) (TEnum tbl) (ser (cint i)) = Raise ValueError.
     Proof using Type.
-      clear Hn Hi Hr. intros Hri Hnot. cbn [from_cbor]. destruct tbl as [|e0 tbl'] eqn:Et; [reflexivity|]. rewrite <- Et in *.
+      clear Hn Hi Hr. intros Hri Hnot. cbn [from_cbor from_cbor_body]. destruct tbl as [|e0 tbl'] eqn:Et; [reflexivity|]. rewrite <- Et in *.
       rewrite dec_ser_int by assumption. cbn [bind].
       assert (E : find_idx (fun e => py_eqb (cint (snd e)) (cint i)) tbl O = None).
       { apply find_idx_none. intros [m j] Hin. cbn [snd]. rewrite py_eqb_cint. destruct (j =? i) eqn:E; [|reflexivity].
@@ -302,7 +302,7 @@ Section Nodes.
         destruct Hin as [<-|Hin], Hnth as [<-|Hnth]; auto.
         - exfalso. apply Hnot. rewrite <- Hname. apply in_map. assumption.
         - exfalso. apply Hnot. rewrite Hname. apply in_map. assumption. }
-      subst e'. exists k. split; [assumption|]. cbn [from_obj]. rewrite E. cbn [kv_set].
+      subst e'. exists k. split; [assumption|]. cbn [from_obj from_obj_body]. rewrite E. cbn [kv_set].
       destruct (from_obj' f (key_ty e) x); reflexivity.
     Qed.
 
@@ -310,7 +310,7 @@ Section Nodes.
     Theorem kv_rejects_foreign n x rest f : ~ In n (map fst tbl) ->
       from_obj' (S f) (TKeyValue m emb) (CMap ((CText n, x) :: rest)) = Raise ValueError.
     Proof using Type.
-      intros Hnot. cbn [from_obj].
+      intros Hnot. cbn [from_obj from_obj_body].
       pose proof (by_name_unknown tbl n Hnot) as Hk. unfold tbl in Hk. rewrite find_idx_map in Hk. cbn [fst] in Hk.
       destruct (find_idx (fun x0 => py_eqb (CText (key_name x0)) (CText n)) m O) as [[k' e']|]; [discriminate|reflexivity].
     Qed.
@@ -335,7 +335,7 @@ Section Nodes.
         destruct Hin as [<-|Hin], Hnth as [<-|Hnth]; auto.
         - exfalso. apply Hnot. rewrite <- Hid. apply in_map. assumption.
         - exfalso. apply Hnot. rewrite Hid. apply in_map. assumption. }
-      subst e'. exists k. split; [assumption|]. intros b Hb. cbn [from_cbor]. rewrite Hb. cbn [bind]. rewrite E. cbn [kv_set].
+      subst e'. exists k. split; [assumption|]. intros b Hb. cbn [from_cbor from_cbor_body]. rewrite Hb. cbn [bind]. rewrite E. cbn [kv_set].
       destruct (from_cbor env json_dumps f (key_ty e) (ensure_cbor x)); reflexivity.
     Qed.
   End KeyValue.
@@ -347,7 +347,7 @@ Theorem kv_member_written_under_id env m emb e idx v b c f :
       to_cbor env f (key_ty e) v = Ok b -> dec b = Ok c ->
       to_cbor env (S f) (TKeyValue m emb) (VKV [(idx, v)]) = Ok (ser (CMap [(cint (key_id e), c)])).
 Proof.
-      intros Hnth H1 H2 Hb Hc. cbn [to_cbor]. rewrite Hnth, Hb. cbn [bind]. rewrite Hc. cbn [bind].
+      intros Hnth H1 H2 Hb Hc. cbn [to_cbor to_cbor_body]. rewrite Hnth, Hb. cbn [bind]. rewrite Hc. cbn [bind].
       assert ((key_id e =? -1) || (key_id e =? -2) = false) as -> by lia. reflexivity.
     Qed.
 
